@@ -28,7 +28,7 @@ def digest (st : State) : String :=
   let s := st.srv
   let conns := "[" ++ ",".intercalate (s.conns.map (fun c => s!"{c.id}@{c.owner}")) ++ "]"
   let ftpc := match s.ftpc with
-    | some f => showSvc f ++ (if s.ftpcFix.isSome then ":FIXING" else if s.ftpcComp then ":COMPROMISED" else ":GOOD")
+    | some f => showSvc f ++ (if s.ftpcFix.isSome then ":FIXING" else if s.ftpcComp then ":COMPROMISED" else ":GOOD") ++ ":" ++ showBool s.ftpConn
     | none => "-"
   let dels (l : List FHealth) := "/".intercalate (l.map (fun h => showF (some h)))
   let svc := if s.installed then s!"{showSvc s.op},{showH s.health}" else "absent,absent"
